@@ -1016,6 +1016,13 @@ pub fn rand_fab(r: &mut Rng, wallet: &mut Wallet, em: &Emphasis) -> FabSpec {
     } else {
         (network, height)
     };
+    // heights at which the DOSC inflator (which grows by one per block up to height 2 000 000 and by 1/2 000 000 of itself
+    // per block from there on) has long left its linear stretch
+    let (network, height) = if em.mint_ops >= 30 && r.chance(1, 6) {
+        (network, *r.pick(&[1_999_999u64, 2_000_001, 2_999_999, 3_000_000, 3_000_001, 3_021_739, 4_000_003]))
+    } else {
+        (network, height)
+    };
     let t906 = tip906_active(network, height);
     let _ = t906;
     let mut coins = vec![];
